@@ -277,6 +277,7 @@ class System:
                                 p,
                                 comp=Rectifier(
                                     cname,
+                                    vdrop=vdrop,
                                     rs=rs,
                                     ig=ig,
                                     iq=iq,
